@@ -251,7 +251,9 @@ class C07(UdpCheck):
             for sname in by_client.get(inc["name"], []):
                 peers[sname].append(cn_)
         for rec in w.sends:
-            if not rec["cb"] or rec["ok"] is not True or rec["status"] != "CONNECTED":
+            # (a send made from inside the server's connect handler is judged even if the library reported another status
+            # at that instant: the handler is only told about clients that are connected)
+            if not rec["cb"] or rec["ok"] is not True or (rec["status"] != "CONNECTED" and not rec.get("from_connect_handler")):
                 continue
             side = "server" if rec["who"] == "S" else "client"
             frag = rec["len"] > cap1
